@@ -4,11 +4,13 @@
 use serde::{Deserialize, Serialize};
 
 use crate::ans;
+use crate::range;
 use crate::common::*;
 
 #[derive(Clone, Debug, Serialize, Deserialize, PartialEq)]
 pub enum Trace {
     Ans(ans::AnsTrace),
+    Range(range::RangeTrace),
 }
 
 pub struct Meta {
@@ -22,7 +24,8 @@ pub struct Meta {
 pub fn worlds_for(prop: &str) -> &'static [&'static str] {
     match prop {
         "C01" | "C04" => &["ans"],
-        "C06" | "C07" | "C08" | "C09" | "C12" | "C18" => &["ans"],
+        "C02" | "C11" => &["range"],
+        "C06" | "C07" | "C08" | "C09" | "C12" | "C18" => &["ans", "range"],
         _ => &[],
     }
 }
@@ -32,6 +35,7 @@ pub fn generate(prop: &str, seed: u64, index: u64, thorough: bool) -> Trace {
     assert!(!ws.is_empty(), "harness: no world registered for {}", prop);
     match ws[(index % ws.len() as u64) as usize] {
         "ans" => Trace::Ans(ans::generate(seed, prop, thorough)),
+        "range" => Trace::Range(range::generate(seed, prop, thorough)),
         w => panic!("harness: unknown world {}", w),
     }
 }
@@ -59,12 +63,33 @@ pub fn exec(t: &Trace, ctx: &mut Ctx) -> Result<(), Violation> {
                 ans::exec(t, ctx, false).map(|_| ())
             }
         }
+        Trace::Range(t) => {
+            if ctx.on("C08") {
+                let twin = {
+                    let mut st = Stats::default();
+                    let mut c2 = Ctx { prop: "none", stats: &mut st, op: 0 };
+                    range::exec(t, &mut c2, true)
+                };
+                let log = range::exec(t, ctx, false)?;
+                if let Ok(twin) = twin {
+                    if twin.completed && log.completed && (twin.decoded != log.decoded || twin.sealed != log.sealed) {
+                        return Err(Violation::new("C08", "range-differs-from-uninspected-twin", t.ops.len(),
+                            format!("with inspections: sealed {:x?}; without: {:x?}", log.sealed, twin.sealed)));
+                    }
+                    ctx.stats.hit("c08-twin-compared");
+                }
+                Ok(())
+            } else {
+                range::exec(t, ctx, false).map(|_| ())
+            }
+        }
     }
 }
 
 pub fn ops_len(t: &Trace) -> usize {
     match t {
         Trace::Ans(t) => t.ops.len(),
+        Trace::Range(t) => t.ops.len(),
     }
 }
 
@@ -75,12 +100,66 @@ pub fn without_ops(t: &Trace, from: usize, to: usize) -> Trace {
             t.ops.drain(from..to.min(t.ops.len()));
             Trace::Ans(t)
         }
+        Trace::Range(t) => {
+            let mut t = t.clone();
+            t.ops.drain(from..to.min(t.ops.len()));
+            Trace::Range(t)
+        }
     }
 }
 
 pub fn simplifications(t: &Trace) -> Vec<Trace> {
     let mut out = Vec::new();
     match t {
+        Trace::Range(t) => {
+            if t.sink != range::Sink::Vec {
+                let mut c = t.clone();
+                c.sink = range::Sink::Vec;
+                out.push(Trace::Range(c));
+            }
+            if t.source != range::Source::CursorVec {
+                let mut c = t.clone();
+                c.source = range::Source::CursorVec;
+                out.push(Trace::Range(c));
+            }
+            if !t.prefix.is_empty() {
+                let mut c = t.clone();
+                c.prefix.clear();
+                out.push(Trace::Range(c));
+            }
+            if t.seeks.len() > 1 {
+                for i in 0..t.seeks.len() {
+                    let mut c = t.clone();
+                    c.seeks.remove(i);
+                    out.push(Trace::Range(c));
+                }
+            }
+            match &t.suffix {
+                range::Suffix::None => {}
+                range::Suffix::Ones(n) if *n > 1 => {
+                    let mut c = t.clone();
+                    c.suffix = range::Suffix::Ones(n / 2);
+                    out.push(Trace::Range(c));
+                }
+                range::Suffix::Ones(_) => {}
+                _ => {
+                    let mut c = t.clone();
+                    c.suffix = range::Suffix::Ones(4);
+                    out.push(Trace::Range(c));
+                    let mut c = t.clone();
+                    c.suffix = range::Suffix::None;
+                    out.push(Trace::Range(c));
+                }
+            }
+            for (i, op) in t.ops.iter().enumerate() {
+                if let range::RangeOp::EncBatch { items, .. } = op {
+                    let mut c = t.clone();
+                    let singles: Vec<range::RangeOp> = items.iter().map(|(s, m)| range::RangeOp::Enc { sym: *s, m: *m }).collect();
+                    c.ops.splice(i..i + 1, singles);
+                    out.push(Trace::Range(c));
+                }
+            }
+        }
         Trace::Ans(t) => {
             if t.backend != ans::Backend::Vec {
                 let mut c = t.clone();
